@@ -300,7 +300,8 @@ class ASTTypeBuilder:
         return InputObjectType(
             name=type_def.name.value,
             description=_desc(type_def),
-            fields=[
+            # has to be lazy to support cyclic definition
+            fields=lambda: [
                 self._build_input_field(field_node)
                 for field_node in type_def.fields
             ],
@@ -475,16 +476,6 @@ class ASTTypeBuilder:
         )
 
         field_names = set(f.name for f in input_object_type.fields)
-        fields = [
-            InputField(
-                f.name,
-                self.extend_type(f.type),
-                default_value=f._default_value,
-                description=f.description,
-                node=f.node,
-            )
-            for f in input_object_type.fields
-        ]
 
         for extension_node in extensions:
             for ext_field in extension_node.fields:
@@ -495,13 +486,32 @@ class ASTTypeBuilder:
                         [ext_field],
                     )
                 field_names.add(ext_field.name.value)
-                fields.append(self._build_input_field(ext_field))
+
+        # has to be lazy to support cyclic definition
+        def fields() -> List[InputField]:
+            return [
+                self._extend_input_field(f) for f in input_object_type.fields
+            ] + [
+                self._extend_input_field(self._build_input_field(ext_field))
+                for extension_node in extensions
+                for ext_field in extension_node.fields
+            ]
 
         return InputObjectType(
             name,
             description=input_object_type.description,
             fields=fields,
             nodes=input_object_type.nodes + extensions,  # type: ignore
+        )
+
+    def _extend_input_field(self, field: InputField) -> InputField:
+        return InputField(
+            field.name,
+            self.extend_type(field.type),
+            default_value=field._default_value,
+            description=field.description,
+            node=field.node,
+            python_name=field.python_name,
         )
 
     def _extend_scalar_type(self, scalar_type: ScalarType) -> ScalarType:
